@@ -316,7 +316,10 @@ def fn_to_sympy(
         # Evaluated fns and floats from attributes
         if isinstance(sympy_expr, float):
             return sympy.Float(sympy_expr)
-        if model_args is not None and len(model_args):
+        if model_args is not None:
+            # strict: an argument list that does not cover all parameters (a call relying on
+            # default values, also the empty call of a helper whose parameters all have
+            # defaults) cannot be translated and must not leave the parameter as a free symbol
             # simultaneous: model arguments may be named like other function arguments
             sympy_expr = sympy_expr.subs(
                 dict(zip(fn_args, model_args, strict=True)), simultaneous=True
